@@ -128,7 +128,7 @@ func (db *SingleBucketBackend) getBucketWithFilePrefixLocked(bucket string, pref
 	// If the directory part of the prefix does not exist, or is an object
 	// rather than a directory, no key can start with the prefix:
 	if prefixPath != "" {
-		if stat, err := db.fs.Stat(filepath.FromSlash(prefixPath)); os.IsNotExist(err) {
+		if stat, err := db.fs.Stat(filepath.FromSlash(prefixPath)); isNotExist(err) {
 			return response, nil
 		} else if err != nil {
 			return nil, err
@@ -275,7 +275,7 @@ func (db *SingleBucketBackend) HeadObject(bucketName, objectName string) (*gofak
 	defer db.lock.Unlock()
 
 	stat, err := db.fs.Stat(filepath.FromSlash(objectName))
-	if os.IsNotExist(err) {
+	if isNotExist(err) {
 		return nil, gofakes3.KeyNotFound(objectName)
 	} else if err != nil {
 		return nil, err
@@ -311,7 +311,7 @@ func (db *SingleBucketBackend) GetObject(bucketName, objectName string, rangeReq
 	defer db.lock.Unlock()
 
 	f, err := db.fs.Open(filepath.FromSlash(objectName))
-	if os.IsNotExist(err) {
+	if isNotExist(err) {
 		return nil, gofakes3.KeyNotFound(objectName)
 	} else if err != nil {
 		return nil, err
@@ -506,7 +506,7 @@ func (db *SingleBucketBackend) deleteObjectLocked(bucketName, objectName string)
 
 	// S3 does not report an error when attemping to delete a key that does not exist, so
 	// we need to skip IsNotExist errors.
-	if err := db.fs.Remove(filepath.FromSlash(objectName)); err != nil && !os.IsNotExist(err) {
+	if err := db.fs.Remove(filepath.FromSlash(objectName)); err != nil && !isNotExist(err) {
 		return err
 	}
 
